@@ -142,6 +142,10 @@ func monitor(cs caseSpec, o obs) *cf.Monitor {
 				if nCommit > cs.Attempts {
 					return fail("commit:retries", "call %d: %d commit requests, Retry.Max+1 = %d", ci, nCommit, cs.Attempts)
 				}
+			case "midcommit":
+				if !haveSession || [2]int64{x.M, x.G} != sess {
+					return fail("identity:commit", "call %d: OffsetCommit (handler's Commit) carries (%d,%d), session is (%d,%d)", ci, x.M, x.G, sess[0], sess[1])
+				}
 			case "leave":
 				if x.M != expectMember || x.M == 0 {
 					return fail("identity:leave", "LeaveGroup carries member %d, expected %d", x.M, expectMember)
@@ -270,6 +274,18 @@ func monitor(cs caseSpec, o obs) *cf.Monitor {
 			case "err":
 				read[x.P]++
 			}
+		}
+		pserved, pread := 0, 0
+		for _, x := range o.Log {
+			switch x.K {
+			case "pomerr":
+				pserved++
+			case "perr":
+				pread++
+			}
+		}
+		if pserved > 0 && pread == 0 {
+			return fail("errors:commit-error-not-delivered", "%d commit blocks were refused with a reported error, none arrived on Errors() although it was read", pserved)
 		}
 		for p, n := range served {
 			if n > 0 && read[p] == 0 {
